@@ -10,6 +10,7 @@ Byte offsets: a real TransportTCP over an asyncio.StreamReader in both roles, th
 (every third in the quick tier), ended by EOF or by a read error, with and without a loop turn in between; responders
 use the library's StreamFromGenerator: handler futures cancelled, sources not pulled again, nothing written or queued,
 no task left, on_close exactly once, pending requests failed, the stream subscriber told exactly once."""
+from harness import internals
 from harness import epcheck as E, endpoint as EP
 
 MODEL_TARGETS = E.MODEL_TARGETS
@@ -84,6 +85,12 @@ def oracle(sc):
     if closes and snap is not None:
         got = [e for e in steps[closes[0]][2] if e[0] in ('fut', 'cb', 'pub', 'appfutcancel')]
         want = expected_sweep(snap)
+        # a channel requester whose receive direction cannot be read off the handler any more (harness/internals.py):
+        # whether its subscriber is owed an error is then unknown, and the signal is left out of the comparison
+        blind = {ent['oid'] for ent in snap if ent['kind'] == 'KChanReq' and ent.get('recv') is None}
+        if blind:
+            got = [e for e in got if not (e[0] == 'cb' and e[1] in blind)]
+            want = [e for e in want if not (e[0] == 'cb' and e[1] in blind)]
         if got != want:
             out.append(E.failure('sweep-differs', sc, mode=mode, expected=repr(want)[:300], got=repr(got)[:300]))
         # nothing for these objects afterwards
@@ -332,7 +339,7 @@ def run_tcp_cut(role, k, mode, settle_between, source='gen'):
                'pulled_after_close': obs['pulled'] - obs.get('pulled_at_close', obs['pulled']),
                'handler_futures_open': sum(1 for f in obs['futs'] if not f.done()),
                'table': sorted(ep._stream_control._streams.keys()), 'tasks_alive': alive, 'unsettled': unsettled,
-               'queued_after_close': ep._send_queue.qsize(), 'escaped': list(loop.exceptions)[:2]}
+               'queued_after_close': internals.send_queue(ep).qsize(), 'escaped': list(loop.exceptions)[:2]}
         if role == 'client':
             res['requests_open'] = [n for n in ('rr1', 'rr3') if not mine[n].done()]
             evs = mine['sub5'].events
